@@ -169,7 +169,7 @@ pub fn ty_j<'tcx>(tcx: TyCtxt<'tcx>, t: Ty<'tcx>) -> J {
 			o.put("k", J::s("alias"));
 			o.put("kind", J::s(a.kind.descr()));
 			o.put("path", J::s(tcx.def_path_str(adid)));
-			o.put("name", J::s(tcx.item_name(adid).as_str()));
+			o.put("name", J::s(tcx.opt_item_name(adid).map(|n| n.to_string()).unwrap_or_else(|| String::from("<opaque>")).as_str()));
 			o.put("args", args_j(tcx, a.args));
 		}
 		ty::Tuple(ts) => {
@@ -613,7 +613,7 @@ fn callee_j<'tcx>(tcx: TyCtxt<'tcx>, owner: LocalDefId, body: &Body<'tcx>, func:
 			o.put("def", J::s(tcx.def_path_str(*def)));
 			o.put("id", J::s(format!("{:?}", def)));
 			o.put("local", def.is_local().into());
-			o.put("name", J::s(tcx.item_name(*def).as_str()));
+			o.put("name", J::s(tcx.opt_item_name(*def).map(|n| n.to_string()).unwrap_or_else(|| String::from("<anon>")).as_str()));
 			o.put("args", args_j(tcx, args));
 			o.put("s", J::s(tcx.def_path_str_with_args(*def, args)));
 			if let Some(tr) = tcx.trait_of_assoc(*def) {
